@@ -9,6 +9,10 @@ Tables (precedence, associativity, spelling, the equal-precedence rule, the sign
 (outer precedence, side) used at every child position) come from `Gen.FmtTables`; the lexer's symbol
 tables from `Gen.ParseTables`.
 
+After fix batch 2: a negative literal has the precedence of a prefix operation (`litPrec`, e7611e2) and an integer
+literal that is the object of a member access is printed in parentheses (`litMemParen`, 07e6b1c); the kinds and the
+precedence come from `Gen.ParseTables` (`negLiteralKinds`, `precNegLiteral`, `memParen…LiteralKinds`).
+
 Abstractions (stated in notes/C09.md): a scoped identifier `a::b` and a literal are one token each,
 named by their text / by `kind value`; float literals are modelled only on a dyadic subset where Rust's
 shortest-round-trip `Display` is the exact decimal expansion.
@@ -262,8 +266,22 @@ def LitOk (l : Lit) : Bool :=
   | _ => false
 
 /-! ## `format_subexpression` -/
+
+/-- the guard of the literal arms of `get_expression_precedence` (e7611e2): the value is negative — `*v < 0` for the
+signed integer kind, `is_sign_negative()` for the float kinds (so `-0.0` counts) — and the kind is one of the generated
+`negLiteralKinds` -/
+def litNegative (l : Lit) : Bool := l.neg && negLiteralKinds.contains l.kind
+
+/-- `get_expression_precedence` on a literal: a negative literal is printed with a sign and binds like a prefix operation -/
+def litPrec (l : Lit) : Nat := if litNegative l then precNegLiteral else precLiteral
+
+/-- `is_int_literal` of the `Member` arm (07e6b1c): the digits of an integer literal directly followed by the period would lex
+as the start of a float, so the object is parenthesised: `(1).x`.  (A negative literal already is, as a prefix operation.) -/
+def litMemParen (l : Lit) : Bool :=
+  memParenLiteralKinds.contains l.kind || (memParenNonNegLiteralKinds.contains l.kind && !l.neg)
+
 def Expr.prec : Expr → Nat
-  | .lit _ => precLiteral
+  | .lit l => litPrec l
   | .id _ => precIdentifier
   | .un op _ => unPrec op
   | .bin op _ _ => binPrec op
@@ -300,10 +318,15 @@ def falseIsAssignment (b : Expr) : Bool :=
 see `Expr.supported`; theorems assume `LitOk`) -/
 def litPiecesT (l : Lit) : List Piece := (litPieces l).getD [.t (.lit l) "?"]
 
+/-- the object of a member access is an integer literal that `is_int_literal` parenthesises -/
+def memObjParen : Expr → Bool
+  | .lit l => litMemParen l
+  | _ => false
+
 mutual
 /-- `format_subexpression expr outer side` -/
 def fmtSub : Expr → Nat → Side → List Piece
-  | .lit n, outer, side => wrap (needParen precLiteral outer side) (litPiecesT n)
+  | .lit n, outer, side => wrap (needParen (litPrec n) outer side) (litPiecesT n)
   | .id n, outer, side => wrap (needParen precIdentifier outer side) [.t (.id n) n]
   | .un op x, outer, side =>
     let inner := fmtSub x (unPrec op) (if isPostfix op then postfixOperandSide else prefixOperandSide)
@@ -324,7 +347,8 @@ def fmtSub : Expr → Nat → Side → List Piece
       (fmtSub o precArraySubscript subObjectSide ++ (pp .LeftSquareBracket ::
         (fmtSub i precArraySubscript subIndexSide ++ [pp .RightSquareBracket])))
   | .mem o n, outer, side =>
-    wrap (needParen precMember outer side) (fmtSub o precMember memObjectSide ++ [pp .Period, .t (.id n) n])
+    wrap (needParen precMember outer side)
+      (wrap (memObjParen o) (fmtSub o precMember memObjectSide) ++ [pp .Period, .t (.id n) n])
   | .call f args, outer, side =>
     wrap (needParen precCall outer side)
       (fmtSub f callObjectPrec callObjectSide ++ (pp .LeftParen :: (fmtArgs args ++ [pp .RightParen])))
